@@ -9,14 +9,12 @@
 (*   Reset  g, stab, debug, meta     a new call on graph g starts          *)
 (*   Read   coord, how, ncmp, unum, uden                                   *)
 (*          first use of x-space coordinate `coord`:                       *)
-(*          how = "cmp"  ncmp comparisons `cum_sum >= coord` were made     *)
-(*                       (the ncmp-th edge of the current subgraph, in     *)
-(*                       index order, was taken); unum/uden: the value of  *)
-(*                       the coordinate when it lies on the dyadic lattice *)
-(*                       (uden = 0: not given)                             *)
-(*          how = "powf" base of a power           (xi)                    *)
+(*          how = "ctl"  it was compared (edge choice); edge = the edge    *)
+(*                       removed at this step, ncmp = comparisons made,    *)
+(*                       unum/uden: the value of the coordinate when it    *)
+(*                       lies on the dyadic lattice (uden = 0: not given)  *)
+(*          how = "data" it entered arithmetic (xi, Box-Muller a / b)      *)
 (*          how = "narrow" converted to f64        (Gamma draw)            *)
-(*          how = "ln" / "mul"                     (Box-Muller a / b)      *)
 (*   Narrow coord, nleaves   any other to_f64 (coord = -1: not a bare      *)
 (*          coordinate; nleaves = number of coordinates it depends on)     *)
 (*   Ret    out, used, logs  outcome, set of coordinates that acquired a   *)
@@ -69,16 +67,23 @@ LatticeOK(k) ==
            ELSE /\ RLe(u, c[k])
                 /\ (IF k = 1 THEN TRUE ELSE RLe(c[k - 1], u))   \* (IF, not \/: TLC evaluates both disjuncts of an action)
 
-TReadCmp ==
-   /\ IsEvent("Read") /\ Rec[l].how = "cmp" /\ Rec[l].coord = ctr
-   /\ pc = "sector" /\ Rec[l].ncmp >= 1 /\ Rec[l].ncmp <= Cardinality(CurSet)
-   /\ LatticeOK(Rec[l].ncmp)
-   /\ PickEdge(KthMin(CurSet, Rec[l].ncmp))
-TReadXi     == IsEvent("Read") /\ Rec[l].how = "powf"   /\ Rec[l].coord = ctr /\ DrawXi
+\* An edge-choice read: the coordinate took part in a comparison before any other use.  `edge` is the edge
+\* the call went on to remove at this step (observed from the removal order of the same point; 0 = not
+\* observed, then the number of comparisons made stands in for it, as in the code's linear scan).
+ChosenEdge == IF Rec[l].edge # 0 THEN Rec[l].edge
+              ELSE IF Rec[l].ncmp >= 1 /\ Rec[l].ncmp <= Cardinality(CurSet) THEN KthMin(CurSet, Rec[l].ncmp) ELSE 0
+PosOf(e) == Cardinality({f \in CurSet : f <= e})
+TReadCtl ==
+   /\ IsEvent("Read") /\ Rec[l].how = "ctl" /\ Rec[l].coord = ctr
+   /\ pc = "sector" /\ ChosenEdge \in CurSet
+   /\ LatticeOK(PosOf(ChosenEdge))
+   /\ PickEdge(ChosenEdge)
+\* a data read: the coordinate enters arithmetic; which role it plays is fixed by where the call is
+TReadXi     == IsEvent("Read") /\ Rec[l].how = "data"   /\ Rec[l].coord = ctr /\ DrawXi
 TReadLambda == IsEvent("Read") /\ Rec[l].how = "narrow" /\ Rec[l].coord = ctr
                /\ \E r \in {"Ok", "ErrGamma"} : DrawLambda(r)
-TReadBmA    == IsEvent("Read") /\ Rec[l].how = "ln"     /\ Rec[l].coord = ctr /\ BoxMullerA
-TReadBmB    == IsEvent("Read") /\ Rec[l].how = "mul"    /\ Rec[l].coord = ctr /\ BoxMullerB
+TReadBmA    == IsEvent("Read") /\ Rec[l].how = "data"   /\ Rec[l].coord = ctr /\ BoxMullerA
+TReadBmB    == IsEvent("Read") /\ Rec[l].how = "data"   /\ Rec[l].coord = ctr /\ BoxMullerB
 
 \* further narrowings: a coordinate already narrowed may be narrowed again; with print_debug_info the
 \* logger receives f64 copies of intermediate values (the property exempts debug output)
@@ -123,7 +128,7 @@ Silent == /\ l' = l
           /\ \/ LastEdge \/ Assign \/ Rescale \/ Finish
              \/ \E r \in {"Ok", "ErrZeroDet", "ErrUnstable"} : Decompose(r)
 
-TNext == TReset \/ TReadCmp \/ TReadXi \/ TReadLambda \/ TReadBmA \/ TReadBmB \/ TNarrow
+TNext == TReset \/ TReadCtl \/ TReadXi \/ TReadLambda \/ TReadBmA \/ TReadBmB \/ TNarrow
          \/ TRet \/ TQ \/ TOut \/ Silent
 
 TSpec == TInit /\ [][TNext]_tvars
